@@ -4,11 +4,15 @@ package proxy
 
 import (
 	"fmt"
+	"os"
 	"regexp"
 	"runtime"
 	"strings"
 	"testing"
 	"testing/synctest"
+	"time"
+
+	"github.com/temporalio/s2s-proxy/vfshared"
 )
 
 // vfBubble runs fn inside a synctest bubble (virtual clock; synctest.Wait = every goroutine durably blocked).
@@ -57,3 +61,41 @@ func vfProxyStacks() string {
 
 // vfQuiesce blocks until every other goroutine of the bubble is durably blocked.
 func vfQuiesce() { synctest.Wait() }
+
+// vfLockWatchdog guards one case that runs inside a synctest bubble against a leaked lock in repository code: a
+// goroutine waiting for a sync.Mutex is not "durably blocked", so the bubble would simply hang until the go test
+// deadline (which the driver reports as inconclusive). The watchdog runs outside the bubble in real time; if the case
+// has not finished after d it probes the process-wide stream tracker's lock: when that lock cannot be taken on several
+// attempts a violation is recorded (the replay file is the case) and the process exits with status 1; when the lock is
+// free the hang is somewhere else and the process exits with status 3 (inconclusive).
+func vfLockWatchdog(st *vfshared.Stats, prop, part string, c any, d time.Duration) (stop func()) {
+	done := make(chan struct{})
+	go func() {
+		select {
+		case <-done:
+			return
+		case <-time.After(d):
+		}
+		tr := GetGlobalStreamTracker()
+		stuck := 0
+		for i := 0; i < 5; i++ {
+			if tr.mu.TryLock() {
+				tr.mu.Unlock()
+			} else {
+				stuck++
+			}
+			time.Sleep(300 * time.Millisecond)
+		}
+		if stuck == 5 {
+			p := vfshared.WriteReplay(prop, part, c)
+			msg := fmt.Sprintf("the case did not finish within %s of real time and the process-wide stream tracker's lock is held (never released on some path): every relay loop that reports to the tracker blocks forever, handlers never return", d)
+			st.Violation(p, msg)
+			st.Flush()
+			fmt.Fprintf(os.Stderr, "%s violated: %s (replay %s)\n", prop, msg, p)
+			os.Exit(1)
+		}
+		fmt.Fprintf(os.Stderr, "INCONCLUSIVE: the case did not finish within %s of real time, but the stream tracker's lock is free\n", d)
+		os.Exit(3)
+	}()
+	return func() { close(done) }
+}
